@@ -36,7 +36,7 @@ pub fn eval(case: &str) -> Out {
         None => return Out::ok("harnesserr hex".into()),
     };
     let root = elements::fast_merkle_root(&leaves).to_parts().0;
-    let pred_fail = if root != definitional(&leaves) { Some("root differs from the definitional tree".to_string()) } else { None };
+    let pred_fail = if root != definitional(&leaves) { Some("root-not-definitional|fast_merkle_root differs from the definitional tree evaluated with the same compression".to_string()) } else { None };
     Out { result: hex(&root), pred_fail }
 }
 
